@@ -24,7 +24,7 @@ def pick_model(seed, idx, features=None, size="s", opt=None, curated_p=0.25, acc
       spec["mopt"] = models.random_mopt(_rng.mix(seed, idx, t, "m"))
     try:
       mjm, m = core.make_model(spec)
-    except (NotImplementedError, ValueError):
+    except (NotImplementedError, ValueError):  # core.ModelRejected is a ValueError
       rejected += 1
       continue
     if accept is not None and not accept(mjm):
